@@ -71,6 +71,13 @@ func c08Compare(c *Ctx, o *opCase, d Delivery) {
 		c.Fail("mismatch", o.e.Name, site, fmt.Sprintf("whole delivery vs %s (seek fails: %v, %d bytes taken from the stream before the call, by seek: %v): %s", d, seekFail, len(before), seekTo, detail))
 	}
 	c.Descf("whole: err=%s; chunked(%s): err=%s shortreads=%d calls=%d", whole.Err, d, chunked.Err, r.ShortReads, r.Calls)
+	if c.Describe {
+		for _, k := range whole.Fields.K {
+			if strings.Contains(k, "Actor") {
+				c.Descf("  %s: whole=%s chunked=%s", k, whole.Fields.Get(k), chunked.Fields.Get(k))
+			}
+		}
+	}
 }
 
 func init() {
